@@ -18,8 +18,9 @@ again), so palettes live in an explicit heap `Addr → Pal`:
   of the same collection.  With `keyByObj` (the repaired `cache_key = field_palette`) the keys of the
   enum caches are references and must be kept; with `id(field_palette)` they are plain numbers.
 
-`version` / `stamp` are ghost counters (never read by an operation's result): the configuration
-counts the changes of its syntax map, a palette remembers the count at which its colours were read.
+`Conf.closed` is a ghost flag (never read by an operation): it records whether every description of
+the configuration was resolved when the configuration was created (no reference to a syntax id that
+only a palette class registers later).
 -/
 namespace PaletteState
 open Ak Render
@@ -111,7 +112,8 @@ structure Conf where
   smap : SMap
   registered : List ClassId
   cache : List (ClassId × Addr)
-  version : Nat
+  /-- ghost: all descriptions were resolved at creation -/
+  closed : Bool
   deriving DecidableEq, Repr
 
 /-- `ColorsConfig.get_color` -/
@@ -128,7 +130,7 @@ when at least one id is new -/
 def Conf.addItems (c : Conf) (items : SMap) : Conf :=
   match newItems c.smap items with
   | [] => c
-  | n :: ns => { c with smap := c.smap ++ n :: ns, cache := [], version := c.version + 1 }
+  | n :: ns => { c with smap := c.smap ++ n :: ns, cache := [] }
 
 structure ClassInfo where
   compound : Bool
@@ -165,7 +167,6 @@ structure Pal where
   conf : ConfId
   noColor : Bool
   colors : List Color
-  stamp : Nat
   deriving DecidableEq, Repr
 
 abbrev EnumCache := List ((Addr × Nat) × List Color)
@@ -217,7 +218,19 @@ def putConf (s : State) (k : ConfId) (c : Conf) : State :=
 synced palette (`if any_modifications and self is _GLOBAL_COLORS_CONF`) -/
 def setConf (cfg : Cfg) (s : State) (k : ConfId) (old new : Conf) : State :=
   let s1 := putConf s k new
-  if k = s.global ∧ new.version ≠ old.version then syncGp cfg s1 else s1
+  if k = s.global ∧ new.smap.length ≠ old.smap.length then syncGp cfg s1 else s1
+
+/-- a new palette object at address `a` -/
+def allocPal (s : State) (a : Addr) (p : Pal) : State := { s with heap := (a, p) :: s.heap }
+
+/-- `colors_conf.put_into_cache(cls, palette)` -/
+def cachePal (s : State) (k : ConfId) (cls : ClassId) (a : Addr) : State :=
+  match s.confs.lookup k with
+  | some c => putConf s k { c with cache := (cls, a) :: c.cache }
+  | none => s
+
+/-- `cls._PALETTE_NO_COLOR = palette` -/
+def cacheNc (s : State) (cls : ClassId) (a : Addr) : State := { s with ncCache := (cls, a) :: s.ncCache }
 
 /-- `_PaletteMeta.__call__(palette_class, colors_conf, no_color)` (not synced) -/
 def mkPalette (cfg : Cfg) (alloc : Alloc) (cls : ClassId) (k : ConfId) (nc : Bool) (s : State) :
@@ -225,22 +238,26 @@ def mkPalette (cfg : Cfg) (alloc : Alloc) (cls : ClassId) (k : ConfId) (nc : Boo
   let ci ← getClass cfg cls
   let c ← getConf s k
   if nc then
+    -- `_get_existing_palette`: the class is registered even when the palette exists
     let c' ← registerCls cfg cls c
     let s1 := setConf cfg s k c c'
     match s1.ncCache.lookup cls with
     | some a => .ok (s1, a)
     | none =>
       let a := alloc (s1.heap.map Prod.fst)
-      .ok ({ s1 with heap := (a, ⟨cls, k, true, ci.localSyntax.map fun _ => [], 0⟩) :: s1.heap,
-                     ncCache := (cls, a) :: s1.ncCache }, a)
+      .ok (cacheNc (allocPal s1 a ⟨cls, k, true, ci.localSyntax.map fun _ => []⟩) cls a, a)
   else
     match c.cache.lookup cls with
     | some a => .ok (s, a)
     | none =>
+      -- `_prepare_local_colors`: register, then read the colours; `_store_palette_in_cache`
       let c' ← registerCls cfg cls c
-      let a := alloc (s.heap.map Prod.fst)
-      let s1 := setConf cfg s k c { c' with cache := (cls, a) :: c'.cache }
-      .ok ({ s1 with heap := (a, ⟨cls, k, false, snapshot cfg ci c', c'.version⟩) :: s1.heap }, a)
+      let s1 := setConf cfg s k c c'
+      let a := alloc (s1.heap.map Prod.fst)
+      .ok (cachePal (allocPal s1 a ⟨cls, k, false, snapshot cfg ci c'⟩) k cls a, a)
+
+/-- `self._sub_palettes[(cls, None)] = palette` -/
+def memoSub (s : State) (p : Addr) (c : ClassId) (b : Addr) : State := { s with subs := ((p, c), b) :: s.subs }
 
 /-- `CompoundPalette.get_sub_palette(palette_class)` (`SUB_PALETTES_MAP` is empty in the package) -/
 def getSub (cfg : Cfg) (alloc : Alloc) (p : Addr) (c : ClassId) (s : State) : Except Err (State × Addr) := do
@@ -251,7 +268,7 @@ def getSub (cfg : Cfg) (alloc : Alloc) (p : Addr) (c : ClassId) (s : State) : Ex
   | some b => .ok (s, b)
   | none =>
     let (s1, b) ← mkPalette cfg alloc c pp.conf pp.noColor s
-    .ok ({ s1 with subs := ((p, c), b) :: s1.subs }, b)
+    .ok (memoSub s1 p c b, b)
 
 def getSubs (cfg : Cfg) (alloc : Alloc) (p : Addr) : List ClassId → State → Except Err State
   | [], s => .ok s
@@ -334,7 +351,10 @@ def render (cfg : Cfg) (alloc : Alloc) (k : ConfId) (nc : Bool) (sh : Shape) (s 
 
 /-! ### configurations -/
 
-def emptyConf (nc : Bool) : Conf := ⟨nc, [], [], [], 0⟩
+def emptyConf (nc : Bool) : Conf := ⟨nc, [], [], [], false⟩
+
+/-- every syntax of the map has a colour (`color_fmt is not None` for all of them) -/
+def allResolved (m : SMap) : Bool := m.all fun e => (resolve m (m.length + 1) e.1).isSome
 
 def validElem (e : List Char) : Bool := !e.isEmpty && e.all fun c => c.isDigit || c == ':'
 
@@ -361,7 +381,7 @@ def mkConf (cfg : Cfg) (nc : Bool) (items : SMap) : Except Err Conf :=
   let c := ((emptyConf nc).addItems items).addItems cfg.builtin
   if !acyclic c.smap then .error .assertion else
   if !acyclic (eventualMap cfg items) then .error .outOfFuel else
-  .ok c
+  .ok { c with closed := allResolved c.smap }
 
 def newConf (cfg : Cfg) (k : ConfId) (nc : Bool) (items : SMap) (s : State) : Except Err State := do
   if (s.confs.lookup k).isSome then .error .keyError else
